@@ -126,7 +126,9 @@ class Exec(StmtMixin):
             result = O.coerce(rv, c.returns) if not (c.returns.kind == "none") else V.NONE
         except UnsupportedError as exc:
             raise UnsupportedError(f"return value of {c.key}: {exc}")
-        env = {"result": result}
+        env = {"retval": result}
+        if "result" not in c.param_names():
+            env["result"] = result
         facts = []
         if c.ghost_ensures:
             # ghost bookkeeping has no code: the ghost cells named in `modifies` take the values the
@@ -151,6 +153,9 @@ class Exec(StmtMixin):
                     raise UnsupportedError(f"ghost_ensures: {exc}")
                 st.assume(*facts)
                 del facts[:]
+        if c.fresh_result and result.ty.kind == "ref" and not c.qualname.endswith("__init__"):
+            self.oblige("post", st, z3.Not(z3.Select(st.entry.alloc_map(result.ty.name), result.t)),
+                        "the returned object is newly allocated (fresh_result)", line, extra={"clause": "fresh_result"})
         for text in c.ensures:
             try:
                 g = SpecEval(self, st, st.entry, env, facts).clause(text)
